@@ -85,8 +85,15 @@ def observe(ex, cs, chain, keys):
     objs = [_key_obj(k, cs, chain) for k in ok]
     try:
         vec = {"bid": ex.bid_prices(objs), "ask": ex.ask_prices(objs),
-               "mid2": 2 * ex.mid_prices(objs), "buy2": 2 * ex.acq_prices(objs, np.ones(len(ok))),
-               "sell2": 2 * ex.liq_prices(objs, np.ones(len(ok)))}
+               "mid2": 2 * ex.mid_prices(objs), "buy2": 2 * ex.acq_prices(objs, np.full(len(ok), 0.5)),
+               "sell2": 2 * ex.liq_prices(objs, np.full(len(ok), 0.25))}
+        # (the quantities are what decides the side: a purchase of half a unit is a purchase, a whole number of units as well)
+        whole = {"buy2": 2 * ex.acq_prices(objs, np.full(len(ok), 3.0)), "sell2": 2 * ex.acq_prices(objs, np.full(len(ok), -2.0)),
+                 "mid2": 2 * ex.acq_prices(objs, np.zeros(len(ok)))}
+        for i, k in enumerate(ok):
+            for f, arr in whole.items():
+                if _p(float(arr[i])) != out[k][f]:
+                    out[k][f] = -98
         sp = ex.spreads(objs)
         for i, k in enumerate(ok):
             for f, arr in vec.items():
